@@ -282,7 +282,7 @@ func checkC05(p *Prog, r *Report) {
 				switch {
 				case "" == hc.Hash:
 					rHash.Unproven(cc, posOf(c), "the verifier's digest computation was not recognised")
-				case hc.Hash != ref.Hash || hc.Serial != ref.Serial:
+				case hc.Hash != ref.Hash || (hc.Serial != ref.Serial && !(okSerial(hc.Serial) && okSerial(ref.Serial))):
 					rHash.Bad(cc, posOf(c), "the client verifier hashes %s(%s) but the server advertises %s(%s)", hc.Hash, hc.Serial, ref.Hash, ref.Serial)
 				default:
 					rHash.OK(cc, posOf(c), "same serialisation and hash as the server: %s(%s)", hc.Hash, hc.Serial)
